@@ -84,6 +84,8 @@ class ContractSet(dict):
         old = self.get(c.qual)
         if old is not None and hasattr(old, "model") and not hasattr(c, "model"):
             raise RuntimeError(f"contract {type(c).__name__} for {c.qual} would hide the caller-side model of {type(old).__name__}: subclass it")
+        if old is not None and type(old).setup is not Contract.setup and type(c).setup is Contract.setup and isinstance(old, type(c)):
+            return old          # a verification contract that refines this caller-side model is already registered: keep the refinement
         self[c.qual] = c
         return c
 
